@@ -434,6 +434,7 @@ template <class Mesh> void HistRun<Mesh>::run_batteries(R &r, const Snap &s, uin
     int every = (int)plan.c("battery_every", 1);
     bool due = every <= 1 || idx % every == 0 || idx + 1 == (int)plan.ops.size();
     if (!due) return;
+    if (ctx.is("C12")) battery_c12_disabled(M, ctx, st);
     if (ctx.in({"C01", "C12"})) battery_c01(M, ctx, st, d);
     if (ctx.is("C05")) battery_c05(M, ctx, st, d);
     if (ctx.is("C08")) battery_c08(M, ctx, st, d);
